@@ -37,6 +37,29 @@ def _load_xdeps(expect_root, build):
     return xdeps
 
 
+def sut_exception_outcome(a, exc):
+    """An exception that escaped a driver: if it was RAISED INSIDE the system under test (innermost frame in the scratch
+    copy of xdeps) while the oracle was merely observing it (printing an expression, reading a log, ...), the system is
+    unusable at that point and that is a violation; if it was raised by the simulator's own code it is a harness error."""
+    tb = exc.__traceback__
+    last = None
+    while tb is not None:
+        last = tb
+        tb = tb.tb_next
+    if last is None or not a.scratch:
+        return None
+    fn = os.path.realpath(last.tb_frame.f_code.co_filename)
+    if not fn.startswith(os.path.realpath(a.scratch)):
+        return None
+    frames = traceback.extract_tb(exc.__traceback__)
+    mine = [f for f in frames if "/xsim/" in f.filename]
+    where = "%s:%d" % (os.path.basename(mine[-1].filename), mine[-1].lineno) if mine else "?"
+    msg = "xdeps raised %s: %s at %s:%d (%s) while the check was observing it (%s)" % (
+        type(exc).__name__, str(exc)[:300], os.path.basename(fn), last.tb_lineno, last.tb_frame.f_code.co_name, where)
+    return {"violation": {"cls": a.prop + ".sut_exception", "msg": msg, "attrs": {"exc": type(exc).__name__}, "step": None},
+            "nontrivial": True, "stats": {}, "extra": {}, "trace_digest": None}
+
+
 def shrink_case(driver, ctx, case, viol, budget_s=60.0):
     """ddmin over case['ops'] (and over the other list-valued parts the driver names),
     keeping the same violation class."""
@@ -154,9 +177,12 @@ def main(argv=None):
             v = o["violation"]
         except SimStall:
             v = {"cls": a.prop + ".stall", "msg": "stall", "attrs": {}, "step": None}
-        except Exception:
-            emit({"type": "error", "msg": traceback.format_exc()})
-            return 2
+        except Exception as e:
+            o = sut_exception_outcome(a, e)
+            if o is None:
+                emit({"type": "error", "msg": traceback.format_exc()})
+                return 2
+            v = o["violation"]
         emit({"type": "replay", "violation": v, "trace_digest": (o or {}).get("trace_digest"),
               "steps": ((o or {}).get("extra") or {}).get("steps")})
         return 0
@@ -181,9 +207,11 @@ def main(argv=None):
         except SimStall:
             o = {"violation": {"cls": a.prop + ".stall", "msg": "one run exceeded its CPU budget of %.0fs" % a.run_budget,
                                "attrs": {}, "step": None}, "nontrivial": False, "stats": {}, "extra": {}, "trace_digest": None}
-        except Exception:
-            emit({"type": "error", "msg": "execute run %d: %s\ncase=%s" % (run, traceback.format_exc(), json.dumps(case, default=repr)[:3000])})
-            return 2
+        except Exception as e:
+            o = sut_exception_outcome(a, e)
+            if o is None:
+                emit({"type": "error", "msg": "execute run %d: %s\ncase=%s" % (run, traceback.format_exc(), json.dumps(case, default=repr)[:3000])})
+                return 2
         agg["evaluations"] += 1
         agg["digests"].append(cd)
         if a.dump_digests:
